@@ -28,7 +28,7 @@ class FloatType(NumberType):
         else:
             kwargs['value'] = value
             kwargs['unit'] = unit
-        if isinstance(kwargs['value'], np.ndarray):
+        if isinstance(kwargs['value'], (np.ndarray, np.generic)):   # also a single element cut out of an array
             kwargs['value'] = kwargs['value'].tolist()
         if 'precision' in kwargs:
             self.precision = int(kwargs['precision'])
